@@ -2,6 +2,7 @@
    sel   <id> <resp>                                   -> <id> panic | <id> <cands a|b> <resp sorted>
    elect <id> <prov> <ens> <rem> <t0> <heads> <incs>   -> <id> trace tokens (BL token: BL:<t>:<rf>:<cands a|b>:<res sorted>)
    fstore <id> <cut>                                   -> <id> old|new     (fixed file provider: all-or-nothing)
+   cfgrace <id> <bl|full> <t0>                         -> <id> trace tokens (ConfigChanged racing with an election retry)
    node  <id> <ops>                                    -> <id> res:dterm:status:term;...
    Servers are decimal numbers. *)
 let split_list s = if s = "-" || s = "" then [] else String.split_on_char ',' s
@@ -53,6 +54,10 @@ let string_of_obs = function
   | M.OStore (c, elected) ->
     let l = match c.M.c_leader with None -> "-" | Some l -> if elected then "$L" else string_of_n l in
     Printf.sprintf "S:%s:%s:%s:%s:%s" (string_of_mz c.M.c_term) (status_name c.M.c_status) l (names "." c.M.c_ens) (names "." c.M.c_rem)
+  | M.OConfigStore (c, elected) ->
+    let l = match c.M.c_leader with None -> "-" | Some l -> if elected then "$L" else string_of_n l in
+    Printf.sprintf "CS:%s:%s:%s:%s:%s" (string_of_mz c.M.c_term) (status_name c.M.c_status) l (names "." c.M.c_ens) (names "." c.M.c_rem)
+  | M.OCrashCfg -> "X:cfg"
   | M.ONewTerms (t, l) -> Printf.sprintf "NT:%s:%s" (string_of_mz t) (sorted_names "." l)
   | M.OQFail -> "Q:fail"
   | M.OBecomeLeader (t, rf, cands, res) ->
@@ -90,6 +95,9 @@ let () = read_lines (fun line ->
     let ns l = List.map n_of_string (split_list l) in
     let tr = M.drive M.fixed (ns ens) (ns rem) (mz_of_string t0) (resp_of_string heads)
                (List.map inc_of_string (String.split_on_char '/' incs)) in
+    Printf.printf "%s %s\n" id (String.concat " " (List.map string_of_obs tr))
+  | ["cfgrace"; id; mode; t0] ->
+    let tr = M.cfg_drive M.cfixed (mode = "full") (mz_of_string t0) in
     Printf.printf "%s %s\n" id (String.concat " " (List.map string_of_obs tr))
   | ["fstore"; id; cut] ->
     (* fixed provider: the write is all-or-nothing; which of the two depends on whether the whole status fits *)
